@@ -855,6 +855,22 @@ func (ex *Exec) callBuiltin(caller *frame, fn *ssa.Builtin, args []value, pos to
 		return tc.Int64(int64(n))
 	case "close":
 		return nil
+	case "clear":
+		switch x := args[0].(type) {
+		case *mapV:
+			if x != nil {
+				ex.noteMapAccess(x, true)
+				if ex.journalOn {
+					panic(mergeFail{"map clear inside merged function"})
+				}
+				x.keys, x.vals = nil, nil
+			}
+		case []value:
+			for i := range x {
+				ex.storeCell(&x[i], ex.zeroLike(x[i]))
+			}
+		}
+		return nil
 	case "delete":
 		ex.mapDelete(args[0].(*mapV), args[1])
 		return nil
@@ -970,4 +986,32 @@ func (ex *Exec) smallInt(v value, what string) int64 {
 		conds = append(conds, ex.tc.Eq(t, ex.tc.Int64(x)))
 	}
 	return r.lo + int64(ex.choose(conds))
+}
+
+// zeroLike returns the zero value with the shape of v (for clear on slices).
+func (ex *Exec) zeroLike(v value) value {
+	switch x := v.(type) {
+	case *Term:
+		switch x.sort.K {
+		case SBool:
+			return ex.tc.False()
+		case SBV:
+			return ex.tc.BVConst(x.sort.W, 0)
+		case SFP:
+			return ex.tc.FPConst(0)
+		case SStr:
+			return ex.tc.StrConst("")
+		}
+	case *value:
+		return (*value)(nil)
+	case structure:
+		n := make(structure, len(x))
+		for i := range x {
+			n[i] = ex.zeroLike(x[i])
+		}
+		return n
+	case iface:
+		return iface{}
+	}
+	panic(unsupported{"clear on slice of this element kind"})
 }
